@@ -21,7 +21,7 @@ PROP = "C18"
 LEVEL = "exploration"
 TIERS = {
     "quick": dict(runs=1600, timeout=180, max_cmds=6, shrink_seconds=90, shrink_steps=300),
-    "thorough": dict(runs=60000, timeout=240, max_cmds=8, shrink_seconds=300, shrink_steps=800),
+    "thorough": dict(runs=30000, timeout=240, max_cmds=8, shrink_seconds=300, shrink_steps=800),
 }
 
 _real_popen = subprocess.Popen
@@ -110,7 +110,7 @@ def generate(rng, index, cfg):
               "set_default": comp in ("difftool", "mergetool") and rng.random() < 0.4,
               "outside_repo": rng.random() < swarm["p_outside"], "fault": None}
         if swarm["faults"] and rng.random() < 0.4:
-            k = rng.choice(["kill_before", "kill_after", "lock", "spawn_fail", "attrs_eacces"])
+            k = rng.choice(["kill_before", "kill_after", "lock", "spawn_fail", "attrs_eacces", "concurrent_write", "concurrent_write"])
             op["fault"] = {"kind": k, "at_step": rng.randint(0, 7)}
         ops.append(op)
     return {"swarm": swarm, "world": world, "ops": ops}
@@ -283,6 +283,21 @@ class Runner:
                 state["fired"] = k
                 runner.log.ev("fault", kind=k, step=n)
                 raise OSError(errno.ENOMEM, "Cannot allocate memory (injected)")
+            if k == "concurrent_write":
+                # another git process (an IDE, the user in a second terminal) changes the configuration between two of
+                # nbdime's steps: nbdime must not write back a stale view of foreign settings
+                state["fired"] = k
+                runner.log.ev("fault", kind=k, step=n)
+                for scope in ("local", "global"):
+                    runner.w.git("config", "--" + scope, "concurrent.writer", "step%d" % n, check=False)
+                    runner.w.git("config", "--" + scope, "merge.conflictstyle", "zdiff3", check=False)
+                runner.concurrent = {"concurrent.writer": "step%d" % n, "merge.conflictstyle": "zdiff3"}
+                # fold the other process' writes into the baseline at once: they are not nbdime's doing
+                for scope in ("local", "global"):
+                    now = runner._cfg(scope)
+                    if any(k == "concurrent.writer" for k, _ in now):
+                        before[scope][:] = [(k, v) for k, v in before[scope] if k not in runner.concurrent] + sorted(runner.concurrent.items())
+                return _real_popen(argv, *a, **kw)
             if k == "lock":
                 state["fired"] = k
                 runner.log.ev("fault", kind=k, step=n)
@@ -420,8 +435,21 @@ class Runner:
             self.distinct["step_state"].add(core.sha([comp, op["enable"], n, now["local"], now["global"]])[:12])
             self.foreign_diff(op, before, now, sig, "at step %d (before %s)" % (n, " ".join(map(str, argv[:6]))))
 
+        self.concurrent = None
         outcome, fired, nsteps = self.run_command(op, before, on_step)
         after = self.observe(probes=True)
+        if self.concurrent:
+            # the concurrent writer's values must have survived the rest of the command, in both scopes
+            for scope in ("local", "global"):
+                have = dict(after[scope])
+                if scope == "local" and op.get("outside_repo"):
+                    pass
+                for k, v in self.concurrent.items():
+                    if have.get(k) != v and not (scope == "local" and not os.path.isdir(os.path.join(self.w.work, ".git"))):
+                        self.violate("S4", dict(sig, key=k, scope_touched="concurrent"),
+                                     "a setting written by another process between two of nbdime's git config steps was lost or "
+                                     "reverted: %s=%r in %s scope, now %r" % (k, v, scope, have.get(k)))
+            self.stat("probe_concurrent_writer_survived")
         self.stat("commands")
         self.stat("cmd_%s_%s" % (comp, sig["action"]))
         self.stat("scope_global" if op["global"] else "scope_local")
